@@ -1421,7 +1421,11 @@ func checkCandidatePositionsUsed(p *Program, r *Report, rule string, a *verifyAn
 							hasT = true
 						}
 						if rel, ok := relOf(g); ok && rel.Op == token.EQL && !isHashType(rel.X.Type()) && (fromPositions(rel.X) || fromPositions(rel.Y)) {
-							hasP = true
+							_, lx := lenArg(rel.X)
+							_, ly := lenArg(rel.Y)
+							if !lx && !ly { // an equality of positions, not of list lengths
+								hasP = true
+							}
 						}
 					}
 					if hasT && hasP {
